@@ -166,18 +166,18 @@ func mapTourCfgs(kind string, quick bool) []mapCfg {
 	}
 	switch kind {
 	case "redblacktree", "avltree":
-		return []mapCfg{{"nat", "", 0, q(7, 9), 0}, {"rev", "", 0, q(5, 7), 0}, {"half", "", 0, q(7, 9), 0}}
+		return []mapCfg{{"nat", "", 0, q(7, 9), 0}, {"revx", "", 0, q(5, 7), 0}, {"half", "", 0, q(7, 9), 0}, {"natx", "", 0, q(4, 6), 0}}
 	case "btree":
 		return []mapCfg{{"nat", "", 3, q(8, 10), 0}, {"nat", "", 4, q(7, 9), 0}, {"nat", "", 5, q(8, 9), 0},
-			{"nat", "", 6, q(8, 9), 0}, {"rev", "", 3, q(5, 7), 0}, {"half", "", 3, q(7, 9), 0}, {"half", "", 4, q(7, 9), 0}}
+			{"nat", "", 6, q(8, 9), 0}, {"revx", "", 3, q(5, 7), 0}, {"half", "", 3, q(7, 9), 0}, {"halfx", "", 4, q(7, 9), 0}}
 	case "treemap":
-		return []mapCfg{{"nat", "", 0, q(5, 7), 0}, {"rev", "", 0, q(4, 6), 0}, {"half", "", 0, q(5, 7), 0}}
+		return []mapCfg{{"nat", "", 0, q(5, 7), 0}, {"revx", "", 0, q(4, 6), 0}, {"half", "", 0, q(5, 7), 0}}
 	case "hashmap", "linkedhashmap":
 		return []mapCfg{{"", "", 0, q(4, 5), 0}}
 	case "hashbidimap":
 		return []mapCfg{{"", "", 0, 3, 3}, {"", "", 0, q(2, 4), q(4, 3)}}
 	case "treebidimap":
-		return []mapCfg{{"nat", "nat", 0, 3, 3}, {"half", "nat", 0, 4, 3}, {"nat", "half", 0, 3, 4}, {"rev", "rev", 0, q(2, 4), 3}}
+		return []mapCfg{{"nat", "nat", 0, 3, 3}, {"half", "nat", 0, 4, 3}, {"natx", "halfx", 0, 3, 4}, {"rev", "revx", 0, q(2, 4), 3}}
 	}
 	return nil
 }
@@ -237,7 +237,7 @@ func jobSeq(j *jobCtx) {
 			continue
 		}
 		// (1) exhaustive tour: values {1,2,3}, every index class, argument lists of length 0..2
-		u := &seqUniverse{kind: k, vals: []int{0, 1, 2}, maxLen: 3, argLen: 2, cmps: []string{"nat", "rev", "half"}, huge: true}
+		u := &seqUniverse{kind: k, vals: []int{0, 1, 2}, maxLen: 3, argLen: 2, cmps: []string{"nat", "rev", "half", "natx", "halfx"}, huge: true}
 		if !j.quick() {
 			u.maxLen = 4
 		}
@@ -313,9 +313,9 @@ func jobSet(j *jobCtx) {
 		}
 		cfgs := []sc{{"", 4}}
 		if k == "treeset" {
-			cfgs = []sc{{"nat", 5}, {"rev", 4}, {"half", 5}}
+			cfgs = []sc{{"nat", 5}, {"revx", 4}, {"half", 5}}
 			if !j.quick() {
-				cfgs = []sc{{"nat", 7}, {"rev", 5}, {"half", 7}}
+				cfgs = []sc{{"nat", 7}, {"revx", 5}, {"halfx", 7}}
 			}
 		} else if !j.quick() {
 			cfgs = []sc{{"", 5}}
@@ -344,9 +344,9 @@ func jobHeap(j *jobCtx) {
 		if !j.want(k) {
 			continue
 		}
-		for _, cmp := range []string{"prio", "maxprio", "prioid"} {
+		for _, cmp := range []string{"prio", "maxpriox", "prioid"} {
 			u := &heapUniverse{kind: k, cmp: cmp, elems: []int{11, 12, 21, 22, 31}, maxLen: 3}
-			if cmp == "prio" || !j.quick() {
+			if baseCmp(cmp) == "prio" || !j.quick() {
 				u.maxLen = 4
 			}
 			if !j.quick() && cmp == "prio" {
